@@ -118,6 +118,9 @@ func (c *cenv) eval(x ast.Expr) Val {
 	if e.err != nil {
 		return termVal(types.Typ[types.Bool], sBool, "true")
 	}
+	// evaluating a specification never generates obligations nor assumes safety conditions
+	e.specMode++
+	defer func() { e.specMode-- }()
 	switch n := x.(type) {
 	case *ast.ParenExpr:
 		return c.eval(n.X)
@@ -465,6 +468,16 @@ func (c *cenv) binary(n *ast.BinaryExpr) Val {
 			}
 		}
 		return c.errf("unsupported operator %s on spec values", n.Op)
+	}
+	// specification-level equality of slices is structural (Go only allows comparison with nil)
+	if (n.Op == token.EQL || n.Op == token.NEQ) && a.Typ != nil && b.Typ != nil {
+		if _, isS := a.Typ.Underlying().(*types.Slice); isS && strings.HasPrefix(e.sortOfT(a.Typ), "Slice_") && a.Sort != "untyped-nil" && b.T != "nilI" {
+			eq := tEq(e.term(c.st(), a), e.term(c.st(), b))
+			if n.Op == token.NEQ {
+				eq = tNot(eq)
+			}
+			return termVal(boolT, sBool, eq)
+		}
 	}
 	save := e.specMode
 	e.specMode++
@@ -861,6 +874,13 @@ func (c *cenv) call(n *ast.CallExpr) Val {
 				}
 			}
 			return termVal(boolT, sBool, "false")
+		case "append":
+			a := c.eval(n.Args[0])
+			b := c.eval(n.Args[1])
+			if a.Typ == nil {
+				return c.errf("append: first argument must be a typed slice")
+			}
+			return e.appendOp(c.st(), a, b, a.Typ)
 		case "errof", "first":
 			v := c.eval(n.Args[0])
 			if v.K == kTuple && len(v.Elems) > 0 {
@@ -1238,6 +1258,16 @@ func (c *cenv) runSpec(f func(st *State) []Out, name string) Val {
 			facts = append(facts, o.st.pc[nPC0:]...)
 		}
 		for _, d := range facts {
+			// facts about terms that mention a quantifier-bound variable are only meaningful under the binder
+			skip := false
+			for _, bv := range c.bound {
+				if bv.T != "" && strings.Contains(d, bv.T) {
+					skip = true
+				}
+			}
+			if skip || e.mentionsBound(d) {
+				continue
+			}
 			base.define(d)
 			if c.post != nil && c.post != base {
 				c.post.define(d)
